@@ -58,7 +58,7 @@ FilterLaw == kase.kind = "sort" /\ kase.s # <<>> =>
 \* (values TLC's 32-bit integers could not hold).
 BigAlphabet == <<0, 1, 2, 3, 4, 5, 6, 7, 8, 9, 10, 11, 12, 13, 14, 15>>
 Rnd(k, i) == ((((k * 7919) + (i * 10473) + ((Seed % 1000) * 3137) + (k * i * 31)) % 100003) % Len(BigAlphabet)) + 1
-RandSeq(k) == [i \in 1..(7 + (k % 10)) |-> BigAlphabet[Rnd(k, i)]]
+RandSeq(k) == [i \in 1..(7 + (k % 27)) |-> BigAlphabet[Rnd(k, i)]]      \* lengths 7..33
 
 EmitCases == TLCGet("stats").generated >= 0 /\
   LET rs == [k \in 1..NRandom |-> RandSeq(k)]
